@@ -145,7 +145,13 @@ def run_call_model(ctx, res, seed):
     unp = make_comp(M.unpacked_model, unpacked=True).call_model(dict(x))
     ex = ScheduledExecutor(lambda n: list(reversed(range(n))))
     unp_ex = make_comp(M.unpacked_model, unpacked=True).call_model(dict(x), executor=ex)
-    for name, got in (('vectorised', vec), ('unpacked', unp), ('unpacked+executor', unp_ex)):
+    # the caller's dict in another key order: positional (unpacked) models must still receive Component.inputs order
+    xr = {k: x[k] for k in reversed(list(x))}
+    unp_r = make_comp(M.unpacked_model, unpacked=True).call_model(dict(xr))
+    ex2 = ScheduledExecutor(lambda n: list(range(n)))
+    unp_ex_r = make_comp(M.unpacked_model, unpacked=True).call_model(dict(xr), executor=ex2)
+    for name, got in (('vectorised', vec), ('unpacked', unp), ('unpacked+executor', unp_ex), ('unpacked, keys reversed', unp_r),
+                      ('unpacked+executor, keys reversed', unp_ex_r)):
         ok = all(np.allclose(np.asarray(ref[k], dtype=float), np.asarray(got[k], dtype=float), rtol=1e-15, atol=0) for k in ('y0', 'y1'))
         if not ok:
             res.failures.append({'kind': 'execution-paths-disagree', 'input': {**info, 'path': name}})
@@ -157,6 +163,18 @@ def train(spec_seed, executor, steps, delay=0.0):
     x0, x1 = Variable('x0', domain=(0.0, 1.0)), Variable('x1', domain=(-1.0, 1.0))
     u, v = Variable('u', domain=(0.5, 2.5)), Variable('v')
     sgk = dict(opt_args={'locally_biased': False, 'maxfun': 60})
+    if spec_seed % 3 == 2:   # ties: one component whose candidates all have an undefined indicator
+        c1 = Component(M.zero_model, inputs=[x0, x1], outputs=[u], name='c1', data_fidelity=(2, 2),
+                       training_data=SparseGrid(**sgk), delay_scale=delay)
+        system = System(c1, name='par')
+        np.random.seed(spec_seed % 2 ** 31)
+        system.fit(max_iter=steps, num_refine=25, max_tol=-np.inf, executor=executor)
+        np.random.seed(5)
+        xs = system.sample_inputs(6)
+        pred = system.predict(xs, executor=executor)
+        d = sc.state_digest(system)
+        d['_pred'] = {k: np.asarray(val).tolist() for k, val in pred.items()}
+        return json.dumps(d, sort_keys=True, default=str)
     if spec_seed % 2:   # multi-fidelity first component: activation batches mix fidelities
         c1 = Component(M.mf_chain_m1, inputs=[x0, x1], outputs=[u], name='c1', model_fidelity=(2,), data_fidelity=(2, 2),
                        training_data=SparseGrid(**sgk), delay_scale=delay)
@@ -205,12 +223,13 @@ def run(ctx: core.Ctx, only=None) -> core.Result:
     res = core.Result()
     res.rule = ('call_model on batches of 3-9 samples: ALL completion permutations (batch <= 4) or 12 random ones through a '
                 'schedule-controlling Executor, thread pools with 1/3/8 workers and per-task delays, a process pool; models '
-                'that raise for some inputs (error positions compared); batches mixing model fidelities; packed/unpacked/vectorised paths; fit()+predict() of a '
+                'that raise for some inputs (error positions compared); batches mixing model fidelities; packed/unpacked/vectorised paths '
+                '(also with the caller\'s dict in another key order); a system whose candidates all tie (undefined indicators); fit()+predict() of a '
                 '2-component chain with scheduled (reversed, random) executors and a thread pool (process pool in the thorough '
                 'tier) vs executor=None: learned state and predictions identical. Every case is non-trivial.')
     items = [o.get('input', o) for o in only] if only is not None else core.corpus_cases('C15') + \
         [{'call_model_seed': ctx.rng.randrange(10 ** 6)} for _ in range(ctx.scale(3, 20))] + \
-        [{'fit_seed': 2 * ctx.rng.randrange(10 ** 6) + k % 2} for k in range(ctx.scale(2, 6))]
+        [{'fit_seed': 6 * ctx.rng.randrange(10 ** 5) + [0, 1, 2][k % 3]} for k in range(ctx.scale(3, 6))]
     for it in items:
         with core.guarded(res, 'scenario-raised', it):
             if 'call_model_seed' in it or 'batch' in it:
